@@ -400,7 +400,7 @@ def run_program(program, props):
 
 def make_harness(prop):
     def search(seed, budget):
-        n = 400 if budget == "quick" else 6000
+        n = 3000 if budget == "quick" else 25000
         seen = set()
         for i in range(n):
             prog = gen_program(seed, i)
